@@ -81,24 +81,24 @@ func captureHello(serverName string) []byte {
 
 type captureConn struct{ buf []byte }
 
-func (c *captureConn) Read(p []byte) (int, error)  { return 0, errors.New("capture only") }
-func (c *captureConn) Write(p []byte) (int, error) { c.buf = append(c.buf, p...); return len(p), nil }
-func (c *captureConn) Close() error                { return nil }
-func (c *captureConn) LocalAddr() net.Addr         { return &net.TCPAddr{} }
-func (c *captureConn) RemoteAddr() net.Addr        { return &net.TCPAddr{} }
-func (c *captureConn) SetDeadline(time.Time) error { return nil }
+func (c *captureConn) Read(p []byte) (int, error)       { return 0, errors.New("capture only") }
+func (c *captureConn) Write(p []byte) (int, error)      { c.buf = append(c.buf, p...); return len(p), nil }
+func (c *captureConn) Close() error                     { return nil }
+func (c *captureConn) LocalAddr() net.Addr              { return &net.TCPAddr{} }
+func (c *captureConn) RemoteAddr() net.Addr             { return &net.TCPAddr{} }
+func (c *captureConn) SetDeadline(time.Time) error      { return nil }
 func (c *captureConn) SetReadDeadline(time.Time) error  { return nil }
 func (c *captureConn) SetWriteDeadline(time.Time) error { return nil }
 
 type c15Result struct {
-	peer      c15Peer
-	phaseAt   time.Duration // start of the phase whose limit applies
-	closedAt  time.Duration // -1: never closed
-	served    bool          // slow-origin: response received
-	servedAt  time.Duration
-	setupErr  string
-	lo, hi    time.Duration // expected window for closure
-	open      bool          // the statement leaves the exact limit open (lo..hi)
+	peer     c15Peer
+	phaseAt  time.Duration // start of the phase whose limit applies
+	closedAt time.Duration // -1: never closed
+	served   bool          // slow-origin: response received
+	servedAt time.Duration
+	setupErr string
+	lo, hi   time.Duration // expected window for closure
+	open     bool          // the statement leaves the exact limit open (lo..hi)
 }
 
 func runC15(env *core.Env, ci any) {
@@ -481,9 +481,9 @@ func init() {
 			}
 			return sb.String()
 		},
-		Real: append([]string{"martian readRequest deadlines, maybeHandshakeTLS, handleMITM handshake timeout, proxyproto header timeout, accept loop"}, realForwarder...),
-		Stub: stubCommon,
-		Rule: "listener stacking (plain, TLS, PROXY, PROXY+TLS, MITM) x per-run idle / read-header / TLS-handshake / PROXY-header limits x 0-16 peers stalled at drawn points (no byte, after k bytes of a PROXY header / TLS ClientHello / request head, between requests, after a MITM'd CONNECT's 200 with or without ClientHello bytes) or waiting on an origin slower than every limit; a well-behaved client connects meanwhile. All limits run on the fake clock. Oracle: closing time == phase start + applicable limit (never earlier; at most 200 ms later); slow origins never cause a close; the well-behaved client is answered with zero simulated time elapsed. Non-trivial = at least one stalled peer judged.",
+		Real:        append([]string{"martian readRequest deadlines, maybeHandshakeTLS, handleMITM handshake timeout, proxyproto header timeout, accept loop"}, realForwarder...),
+		Stub:        stubCommon,
+		Rule:        "listener stacking (plain, TLS, PROXY, PROXY+TLS, MITM) x per-run idle / read-header / TLS-handshake / PROXY-header limits x 0-16 peers stalled at drawn points (no byte, after k bytes of a PROXY header / TLS ClientHello / request head, between requests, after a MITM'd CONNECT's 200 with or without ClientHello bytes) or waiting on an origin slower than every limit; a well-behaved client connects meanwhile. All limits run on the fake clock. Oracle: closing time == phase start + applicable limit (never earlier; at most 200 ms later); slow origins never cause a close; the well-behaved client is answered with zero simulated time elapsed. Non-trivial = at least one stalled peer judged.",
 		Assumptions: []string{"after a MITM'd CONNECT's 200 and before the first ClientHello byte the statement does not say which limit applies: closure is required between min and max of idle-timeout and tls-handshake-timeout", "on a PROXY+TLS listener a peer stalled inside its PROXY header may be closed anywhere between min(header timeout, TLS handshake timeout) and the header timeout"},
 	})
 }
